@@ -7,6 +7,8 @@
 //! (async), and log `enter` / `exit`.  Nothing here depends on olegnn/join.
 #![allow(clippy::all)]
 
+/// `futures` under another path: the value the C16 programs give to `futures_crate_path`
+pub use futures as fx;
 use serde_json::{json, Map, Value};
 use std::alloc::{GlobalAlloc, Layout, System};
 use std::cell::Cell;
@@ -811,14 +813,14 @@ macro_rules! tjm {
 macro_rules! aj {
     ($($f:expr),+) => {{
         $crate::joiner_ev($crate::count_exprs!($($f),+), false);
-        ::futures::join!($($f),+)
+        $crate::fx::join!($($f),+)
     }};
 }
 #[macro_export]
 macro_rules! atj {
     ($($f:expr),+) => {{
         $crate::joiner_ev($crate::count_exprs!($($f),+), false);
-        ::futures::try_join!($($f),+)
+        $crate::fx::try_join!($($f),+)
     }};
 }
 /// async lazy joiner: branches arrive as `move || future`
@@ -826,14 +828,14 @@ macro_rules! atj {
 macro_rules! alj {
     ($($f:expr),+) => {{
         $crate::joiner_ev($crate::count_exprs!($($f),+), true);
-        ::futures::join!($(($f)()),+)
+        $crate::fx::join!($(($f)()),+)
     }};
 }
 #[macro_export]
 macro_rules! altj {
     ($($f:expr),+) => {{
         $crate::joiner_ev($crate::count_exprs!($($f),+), true);
-        ::futures::try_join!($(($f)()),+)
+        $crate::fx::try_join!($(($f)()),+)
     }};
 }
 
